@@ -732,3 +732,62 @@ def rule_elim_no_pivot(ctx: Ctx, rels: List[str]) -> None:
                              f"singular; elimination without pivoting needs all leading principal minors to be non-zero",
                              func=qualname(fn), construct=f"{qualname(fn)}: pivot {short(diag[0], 40)} without row exchange")
     ctx.ok_abstract("elim.no-pivot", f"{scanned} functions scanned, {hits} diagonal-pivot elimination loops")
+
+
+# --------------------------------------------------------------------------- chain.subject-drift
+
+
+def rule_subject_drift(ctx: Ctx, rels: List[str]) -> None:
+    """chain.subject-drift: an if / elif chain that classifies one value with isinstance tests, where one arm tests a *different expression
+    for the same thing*: a local `v` bound to `<something>.attr` in the other arms and `<other>.attr` (the un-converted original) in this
+    one.  When the local was taken from a converted copy, the stray arm looks at the wrong object and the chain can fall through with
+    nothing assigned."""
+    rels = _widen(ctx, rels)
+    repo = ctx.repo
+    chains_seen = hits = 0
+    for rel in rels:
+        m = repo.module(rel)
+        for fn in [f for f in ast.walk(m.tree) if isinstance(f, (ast.FunctionDef, ast.AsyncFunctionDef))]:
+            defs: Dict[str, List[ast.AST]] = {}
+            for a in ast.walk(fn):
+                if isinstance(a, ast.Assign) and len(a.targets) == 1 and isinstance(a.targets[0], ast.Name):
+                    defs.setdefault(a.targets[0].id, []).append(a.value)
+            for head in [i for i in ast.walk(fn) if isinstance(i, ast.If)]:
+                par = parent(head)
+                if isinstance(par, ast.If) and par.orelse == [head]:
+                    continue  # not the head of its chain
+                arms, cur = [], head
+                while True:
+                    arms.append(cur)
+                    if len(cur.orelse) == 1 and isinstance(cur.orelse[0], ast.If):
+                        cur = cur.orelse[0]
+                    else:
+                        break
+                subs = []
+                for a in arms:
+                    t = a.test
+                    if isinstance(t, ast.Call) and isinstance(t.func, ast.Name) and t.func.id == "isinstance" and len(t.args) == 2:
+                        subs.append((a, t.args[0]))
+                if len(subs) < 2:
+                    continue
+                chains_seen += 1
+                kinds = {}
+                for a, e in subs:
+                    kinds.setdefault(norm(e), []).append((a, e))
+                if len(kinds) != 2:
+                    continue
+                (k1, l1), (k2, l2) = kinds.items()
+                for (ka, la), (kb, lb) in (((k1, l1), (k2, l2)), ((k2, l2), (k1, l1))):
+                    ea, eb = la[0][1], lb[0][1]
+                    # ka is a local bound to X.attr, kb is Y.attr with the same attr
+                    if isinstance(ea, ast.Name) and ea.id in defs and isinstance(eb, ast.Attribute):
+                        srcs = [v for v in defs[ea.id] if isinstance(v, ast.Attribute) and v.attr == eb.attr]
+                        if srcs and any(norm(v) != kb for v in srcs):
+                            hits += 1
+                            ctx.touch(m, fn)
+                            ctx.fail("chain.subject-drift", m, lb[0][0].test,
+                                     f"the chain classifies `{ka}` (bound to {sorted({norm(v) for v in srcs})}) but this arm tests `{kb}`: when `{ka}` comes from a "
+                                     f"converted copy the two are different objects, the arm looks at the wrong one and the chain can fall through "
+                                     f"without doing anything (a later use of what it was to assign raises UnboundLocalError)",
+                                     func=qualname(fn), construct=f"{qualname(fn)}: isinstance chain tests both `{ka}` and `{kb}`")
+    ctx.ok_abstract("chain.subject-drift", f"{chains_seen} isinstance chains examined, {hits} with a drifting subject")
